@@ -30,7 +30,7 @@ CHECKS.update({
     "C20": dict(
         level="exploration",
         technique="exhaustive enumeration of every member of every XML-mapped enumeration, every preset auto-shape row and every writable chart type, compared with the schema enumerations and presetShapeDefinitions.xml shipped in the repository",
-        text="575 enumeration members (run time and module AST: aliases that would fold a token away are seen), 182 auto-shape rows against the standard's preset definitions (with the stated erratum tolerance), 182 add_shape read-backs (live and after re-open), adjustment histories for every adjustable preset (first shape set / loaded with explicit guides, fresh shapes afterwards read the defaults), 29 writable chart types x 9 data sizes read back, and every chart of the PowerPoint-authored chart-type deck read against the types the repository's acceptance specification documents; the space is finite and enumerated completely.",
+        text="575 enumeration members (run time and module AST: aliases that would fold a token away are seen), 182 auto-shape rows against the standard's preset definitions (with the stated erratum tolerance), 182 add_shape read-backs (live and after re-open), adjustment histories for every adjustable preset (first shape set / loaded with explicit guides, fresh shapes afterwards read the defaults), 29 writable chart types x 9 data sizes read back (fresh, after re-open, and again after ONE data point was formatted), and every chart of the PowerPoint-authored chart-type deck read against the types the repository's acceptance specification documents; the space is finite and enumerated completely.",
         note="Trusted: spec/ XSDs and presetShapeDefinitions.xml as shipped; the enum -> ST_* table in mc/props/c20.py is cross-checked against the attribute declarations that use each enum.",
         design="4/C20"),
 })
@@ -39,7 +39,7 @@ CHECKS.update({
     "C05": dict(
         level="exploration",
         technique="bounded-exhaustive enumeration of a sink catalogue x metacharacter string set executed through the public API, differential tag-skeleton oracle + reader round trip + save/re-open",
-        text="139 (thorough ~360) string-accepting entry points (names, file names, hyperlink addresses, chart series / category / number-format fields per chart family for add_chart and replace_data, font names, prog-ids, mime type, core properties, renamed placeholders, plus TWIN sinks: two near-identical strings - case-swapped or with a trailing blank - stored side by side in one part) x ~145 strings (all strings of length <= 2 over the XML metacharacters plus curated entity / CDATA / format-directive / enum-token-like / 255-character / escape-look-alike strings): each call must not raise, the saved parts must re-parse with the same element skeleton as for a benign string, and the public reader must return the string before and after save/re-open. Exhaustive over catalogue x string set.",
+        text="142 (thorough ~365) string-accepting entry points (names, file names, hyperlink addresses, chart series / category / number-format fields per chart family for add_chart and replace_data, font names, prog-ids, mime type, core properties, renamed placeholders, plus TWIN sinks: two near-identical strings - case-swapped or with a trailing blank - stored side by side in one part; and the same address assigned twice) x ~145 strings (all strings of length <= 2 over the XML metacharacters plus curated entity / CDATA / format-directive / enum-token-like / 255-character / escape-look-alike strings): each call must not raise, the saved parts must re-parse with the same element skeleton as for a benign string, and the public reader must return the string before and after save/re-open. Exhaustive over catalogue x string set.",
         note="Trusted: bare lxml parsing of saved members; the sink catalogue in mc/props/c05.py (hover hyperlinks and OLE icon names are not reachable as XML sinks through the public API). Strings outside the XML Char production are out of the claim.",
         design="4/C05"),
     "C06": dict(
@@ -72,13 +72,13 @@ CHECKS.update({
     "C04": dict(
         level="exploration",
         technique="bounded-exhaustive enumeration of all strings over a 14-character alphabet (length <= 3 / <= 4) x 4 assignment levels x 6 prior body states, plus all ordered assignment pairs, executed on real text bodies against a reference model of the documented translations",
-        text="Every string over {a, space, LF, VT, TAB, CR, NUL, BEL, US, <, &, astral, _, x} up to length 3 (thorough 4) plus 25 fixed longer strings (runs of 12 and 40 breaks, C1 controls, DEL, surrogate-adjacent code points, _xHHHH_ look-alikes of non-control code points), assigned at frame / cell / paragraph / run / shape level onto six prior bodies (fields, leading breaks, properties), and all ordered pairs of assignments over the 24 level pairs; getter at every level, a:p / a:br counts, a:pPr preservation, part-level re-parse and two real save/re-open cycles. Sizes asserted against closed forms.",
+        text="Every string over {a, space, LF, VT, TAB, CR, NUL, BEL, US, <, &, astral, _, x} up to length 3 (thorough 4) plus 25 fixed longer strings (runs of 12 and 40 breaks, C1 controls, DEL, surrogate-adjacent code points, _xHHHH_ look-alikes of non-control code points), assigned at frame / cell / paragraph / run / shape level onto six prior bodies (fields, leading breaks, properties), all ordered pairs of assignments over the 24 level pairs, and strings of unusual TYPE (plain str subclass, subclass with its own __str__, str-enum member) at every level; getter at every level, a:p / a:br counts, a:pPr preservation, part-level re-parse and two real save/re-open cycles. Sizes asserted against closed forms.",
         note="Trusted: mc/oracles/text_ref.py (written from the statement), bare lxml reads of the body. Escape look-alike literals (_x000A_) are only judged for stability (statement silent).",
         design="4/C04"),
     "C12": dict(
         level="model_checking",
         technique="explicit-state BFS over histories of reflective read traversals (4 entry points x 2 accessor orders) and saves on every corpus deck, executed on the real object model; canonical saved package compared with the package saved straight after opening",
-        text="On all 68 corpus decks and 5 generated decks (rich, irregular slide names, orphan jump target, notes without master relationship): every public read property and collection protocol of every reachable proxy object is called, in forward and reverse order, from four entry points, interleaved with saves, to depth 1 on all decks and depth 2 on 10 feature-rich decks (thorough: 2 and 3); a differing state (saved package up to empty formatting containers, plus populated caches) is attributed to the accessor that changed its element. Isolation pass: one object (thorough two) of every distinct structural context found in any deck x every read accessor and every look-up method (len, [], in, index, get, get_by_name with own, foreign and absent keys), each alone on a fresh deck, XML and relationships compared (7.3k isolated calls).",
+        text="On all 68 corpus decks and 6 generated decks (rich, irregular slide names, orphan jump target, notes without master relationship, a deck left by a sequence of public edits: text typed into a spanned cell, moved group member, customised point label / marker, properties set and reset): every public read property and collection protocol (iterator or sequence protocol: table rows, columns and cells included) of every reachable proxy object is called, in forward and reverse order, from four entry points, interleaved with saves, to depth 1 on all decks and depth 2 on 11 feature-rich decks (thorough: 2 and 3); a differing state (saved package up to empty formatting containers, plus populated caches) is attributed to the accessor that changed its element. Isolation pass: one object (thorough two) of every distinct structural context found in any deck x every read accessor and every look-up method (len, [], in, index, get, get_by_name with own, foreign and absent keys), each alone on a fresh deck, XML and relationships compared (7.7k transitions in the quick tier).",
         note="Trusted: mc/oracles/opc_ref.py, lxml c14n; tolerance = empty attribute-less *Pr / a:ln / a:lstStyle / c:marker; accessors exempt only when their docstring documents creation (table EXEMPT in mc/props/c12.py). Known findings: 13 undocumented creating getters.",
         design="4/C12"),
     "C16": dict(
@@ -93,7 +93,7 @@ CHECKS.update({
     "C01": dict(
         level="exploration",
         technique="deviation-bounded exhaustive enumeration of abstract OPC packages (every rooted relationship digraph x style vectors with <= 1 / <= 2 deviations from the default style), written by the harness's own zip writer, round-tripped through the real OpcPackage.open/save and compared by an independent OPC reader",
-        text="All rooted digraphs over k <= 3 parts (cycles, self-loops, shared targets; thorough: k = 4 by isomorphism class) x style vectors (target form, Default/Override/case variants, several parts sharing an extension, id schemes incl. non-rId ids, payload kinds incl. XML with comments/PIs for parsed parts, zip path/stream/directory, orphans, parallel edges, external relationships) over a 7-name alphabet (sibling directories with a common string prefix, upper-case extension, bracketed and percent-escaped name, extension-less) within the deviation bound, successive packages through one re-used input and output path per worker, plus all 68 corpus decks through OpcPackage and Presentation; 85k (thorough ~700k) packages, sizes asserted against closed forms; save(open(out)) must be byte-identical per member.",
+        text="All rooted digraphs over k <= 3 parts (cycles, self-loops, shared targets; thorough: k = 4 by isomorphism class) x style vectors (target form, Default/Override/case variants, several parts sharing an extension, id schemes incl. non-rId ids, payload kinds incl. XML with comments/PIs for parsed parts, zip path/stream/directory, orphans, parallel edges, external relationships) over a 7-name alphabet (sibling directories with a common string prefix that share a deeper folder name, upper-case extension, bracketed and percent-escaped name, extension-less) within the deviation bound, successive packages through one re-used input and output path per worker, plus all 68 corpus decks through OpcPackage and Presentation; 85k (thorough ~700k) packages, sizes asserted against closed forms; save(open(out)) must be byte-identical per member.",
         note="Trusted: mc/oracles/opc_ref.py, the generator mc/props/c01_gen.py (opc_ref must agree with the abstract model on every generated input or the run is a harness error). Zip-level variations (member order, stored vs deflated, Zip64) are not modelled.",
         design="4/C01"),
 })
@@ -102,13 +102,13 @@ CHECKS.update({
     "C07": dict(
         level="model_checking",
         technique="exhaustive enumeration of chart types x data shapes and of replace_data histories over representative shapes, executed on the real chart API; strict chart-schema validation by libxml2 (error-set rule), read-API comparison with a reference model of the supplied data, c14n preservation check",
-        text="All 29 writable chart types x category shapes (1..300 leaves, eight label kinds incl. 7-17 significant-digit numbers and dates either side of 1900-03-01, every uniform-depth category forest up to 4 leaves/depth 3 (thorough 6/4)), series counts 0..27 (thorough 0..50), values with holes, every tuple of per-series lengths over {0..5} against 3 categories and {0,2,4,6} against a 4-leaf forest, XY/bubble length patterns, number formats; every replace_data sequence of length <= 2 (thorough 3) over six representative shapes plus the ragged and wide-label shapes from each type, from 46 corpus charts and from charts with renumbered c:idx; chart-data objects re-used after mutation: 18k (thorough 150k) paths, each checked transition compared with the model (names, values, categories per level, unique idx/order, surviving formatting).",
+        text="All 29 writable chart types x category shapes (1..300 leaves, eight label kinds incl. 7-17 significant-digit numbers and dates either side of 1900-03-01, every uniform-depth category forest up to 4 leaves/depth 3 (thorough 6/4)), series counts 0..27 (thorough 0..50), values with holes, every tuple of per-series lengths over {0..5} against 3 categories and {0,2,4,6} against a 4-leaf forest, XY/bubble length patterns, number formats, values and labels of every legal numeric type (int / float subclasses, Decimal, Fraction), categories put into the chart-data object along six paths (assigned once, twice, over others, after add_category ...); every replace_data sequence of length <= 2 (thorough 3) over six representative shapes plus the ragged and wide-label shapes from each type, from 46 corpus charts and from charts with renumbered c:idx; chart-data objects re-used after mutation: 20k (thorough 155k) paths, each checked transition compared with the model (names, values, categories per level, unique idx/order, surviving formatting).",
         note="Trusted: libxml2 + schemas in /repo/spec, mc/props/c07_shapes.py reference model, bare lxml reads of the chart part. Known findings: negative axis ids / radar c:smooth in the writer templates, pie writes one series, zero-series plots.",
         design="4/C07"),
     "C08": dict(
         level="exploration",
         technique="bounded-exhaustive enumeration of chart data (column-boundary series counts, all 16384 column references, all XY/bubble length triples) executed on the real workbook writer; every c:f range resolved in the embedded .xlsx by an independent SpreadsheetML reader and compared cell by cell with the cached points",
-        text="C07's data shapes (incl. ragged series lengths and 7-17 significant-digit numeric labels) plus series counts 25..27 (thorough 701..703) x category depth 1..4, _column_reference for all 16384 columns against an independent base-26 conversion, XY/bubble series lengths {0,1,2,5}^3, formula-like / URL-like / numeric-looking labels, datetime labels, replace_data histories incl. re-used chart-data objects (workbook located in the SAVED package), a date1904 chart: 28k (thorough 133k) evaluations; every c:f range parsed independently, c:ptCount = range size, every cached point equals its cell.",
+        text="C07's data shapes (incl. ragged series lengths and 7-17 significant-digit numeric labels) plus series counts 25..27 (thorough 701..703) x category depth 1..4, _column_reference for all 16384 columns against an independent base-26 conversion, XY/bubble series lengths {0,1,2,5}^3, formula-like / URL-like / numeric-looking labels, datetime labels, replace_data histories incl. re-used chart-data objects (workbook located in the SAVED package), a date1904 chart, and packages holding 2-3 charts built from identical data with every short replace_data sequence over them (each chart checked against its OWN workbook): 33k (thorough 146k) evaluations; every c:f range parsed independently, c:ptCount = range size, every cached point equals its cell.",
         note="Trusted: mc/oracles/xlsx_ref.py (zipfile + bare lxml; independent A1 parser). Numbers compared with relative tolerance 1e-14 (XlsxWriter prints 16 significant digits).",
         design="4/C08"),
 })
@@ -129,13 +129,13 @@ CHECKS.update({
     "C15": dict(
         level="model_checking",
         technique="exhaustive enumeration of generated images (format x size x dpi x file-name/hand-over variant x requested size) through the real add_picture, plus explicit-state BFS (replay mode) over picture / placeholder / movie-poster / OLE-icon / save+re-open histories with a multiset-of-byte-strings reference model, judged on the saved zip by an independent reader",
-        text="Generated images (PNG/JPEG/GIF/BMP/TIFF, 17 sizes, 11 dpi settings read back by hand-written header parsers) x 6 hand-over variants x 4 size requests; every pixel extent 1..128 (thorough 1..256, and every integer dpi 1..2048) x 18 resolutions x 4 formats with an exact rational size oracle; file-like objects handed over with the cursor at 5 positions x 4 entry points; the own images of every corpus deck that holds images added again (as opened / after re-save, stream / path); and all histories to depth 3 (thorough 4) over 13 operations from 3 initial decks incl. one with ten images: 28k (thorough 345k) evaluations; every state has exactly one media part per distinct byte string, byte-exact, with the extension/content type of the real format, native size = pixels x 914400 / dpi (72 when absent or implausible), aspect ratio within rounding.",
+        text="Generated images (PNG/JPEG/GIF/BMP/TIFF, 17 sizes, 11 dpi settings read back by hand-written header parsers) x 6 hand-over variants x 4 size requests; every pixel extent 1..128 (thorough 1..256, and every integer dpi 1..2048) x 18 resolutions x 4 formats with an exact rational size oracle; ten kinds of file-like object (BytesIO, files opened rb / w+b flushed or not, temporary files, spooled, misleading .name, minimal read/seek/tell) x cursor positions x small / larger-than-the-I/O-buffer images x 4 entry points; the own images of every corpus deck that holds images added again (as opened / after re-save, stream / path); and all histories to depth 3 (thorough 4) over 13 operations from 3 initial decks incl. one with ten images: 31k (thorough 349k) evaluations; every state has exactly one media part per distinct byte string, byte-exact, with the extension/content type of the real format, native size = pixels x 914400 / dpi (72 when absent or implausible), aspect ratio within rounding.",
         note="Trusted: mc/oracles/image_ref.py (own PNG pHYs / JFIF / BMP / TIFF readers, cross-checked against Pillow), mc/oracles/opc_ref.py. The generator's request is the truth about the format (not Pillow's detection).",
         design="4/C15"),
     "C17": dict(
         level="model_checking",
         technique="explicit-state search on the real shapes: full closure of the connector end-point state graph; depth-bounded exhaustive addition histories into nested groups; exhaustive freeform pen enumeration; each against a geometric reference model",
-        text="Connector: all 256 creations x 2 scales and the complete reachable graph under 20 end-point assignments (1800 states, 36k transitions, no depth bound). Groups: 9 member kinds (incl. zero-width / zero-height / zero-area members) x 3x3 positions x 2 sizes into any group of the tree, all histories to length 2 and restricted prefixes (incl. a caller resize of the group) to length 3 (thorough 4), nesting to depth 4/5, every group's off/ext/chOff/chExt = bounding box of members after every addition. Freeform: 223k (thorough 3.3M) pens (negative/fractional/repeated vertices, second contour, 4 scales, 2 origins, builder re-used after conversion): position/size = scaled bounding box + origin within 1 EMU, all points inside the path extents.",
+        text="Connector: all 256 creations x 2 scales and the complete reachable graph under 20 end-point assignments (1800 states, 36k transitions, no depth bound). Groups: 9 member kinds (incl. zero-width / zero-height / zero-area members) x 3x3 positions x 2 sizes into any group of the tree, all histories to length 2 and restricted prefixes (incl. a caller resize of the group) to length 3 (thorough 4), nesting to depth 4/5, every group's off/ext/chOff/chExt = bounding box of members after every addition. Freeform: 330k (thorough 3.3M) shapes from pens (negative/fractional/repeated vertices, second contour, 4 scales, 2 origins, builder re-used after conversion, vertices handed over as tuple / list of lists / generator / iterator / Fraction coordinates): position/size = scaled bounding box + origin within 1 EMU, all points inside the path extents.",
         note="Trusted: the geometric model in mc/props/c17.py; bare lxml reads of a:xfrm / a:path. The group alphabet is full only for the last operation of histories longer than 2 (stated in evidence).",
         design="4/C17"),
 })
@@ -144,7 +144,7 @@ CHECKS.update({
     "C13": dict(
         level="model_checking",
         technique="exhaustive enumeration of every corpus layout and of generated layout / notes-master placeholder populations, plus explicit-state BFS (replay mode) over add_slide / move / text / notes / save histories, executed on the real API against an expected-placeholder model computed from the layout XML by a bare-lxml reader",
-        text="All 178 layouts of the 68 corpus decks; generated layouts with every single placeholder over 17 types x orientation x idx x xfrm (absent, complete, zero offsets) x sz x 2 masters, all pairs over a reduced product (thorough adds the full idx^2 and triples); notes slides on every deck, generated notes masters (singles, and ordered pairs over 6 types x 2 | 4 idx values x xfrm); BFS to depth 3 (thorough 4) over 13 operations from 3 decks. Each new slide mirrors type/idx/orient/sz one-for-one in order, with distinct names, layout (else master) geometry, is last, related to its layout, leaves other slides unchanged, in memory and after save/re-open.",
+        text="All 178 layouts of the 68 corpus decks; generated layouts with every single placeholder over 17 types x orientation x idx x xfrm (absent, complete, zero offsets) x sz x 2 masters, all pairs over a reduced product (thorough adds the full idx^2 and triples), placeholder-name configurations (distinct / shared / empty / equal to the name generated for another clone); notes slides on every deck, generated notes masters (singles, and ordered pairs over 6 types x 2 | 4 idx values x xfrm); every corpus layout and notes master again after its placeholders were renamed to one name; BFS to depth 3 (thorough 4) over 15 operations from 3 decks. Each new slide mirrors type/idx/orient/sz one-for-one in order, with distinct names, layout (else master) geometry, is last, related to its layout, leaves other slides unchanged, in memory and after save/re-open.",
         note="Trusted: mc/props/c13_lib.py (bare-lxml placeholder reader and inheritance rule of the standard), generated decks of mc/props/c13_gen.py (harness-side zip rewriting). With duplicate idx values in one layout any layout placeholder sharing the idx is accepted as counterpart (weaker reading).",
         design="4/C13"),
 })
